@@ -449,6 +449,15 @@ def plan(ctx):
                 out.append((kind, form, [(o, fa), (dict(o, ow=True), None, True)]))
                 if not ctx.quick:
                     out.append((kind, form, [(o, fa), (dict(o, ow=False), None, True)]))
+        # a converter that first declined ("output exists", status 0) and is then asked to force the re-run: an earlier
+        # complete or interrupted run by another object left output; process() ; process(overwrite=True) on one object
+        for o1 in rnd.sample(opts, 2 if ctx.quick else 8):
+            for fa1 in ([None, 9] if ctx.quick else [None, 3, 9, 12, 15]):
+                for o in rnd.sample(opts, 2 if ctx.quick else 6):
+                    out.append((kind, form, [(o1, fa1), (dict(o, ow=False), None), (dict(o, ow=True), None, True)]))
+                    if not ctx.quick:
+                        out.append((kind, form, [(o1, fa1), (dict(o, ow=False), None), (dict(o, ow=False), None, True),
+                                                 (dict(o, ow=True), None, True)]))
         if not ctx.quick:
             # second run interrupted as well, third run forced
             for f in rnd.sample(firsts, 10):
